@@ -28,12 +28,12 @@ REQUIRED = {
               "class/zero_volatility_market": 25, "class/change_point": 150, "class/shock_change": 30,
               "class/correlation_change": 30, "class/crossed_2_chunks": 28, "statistical_runs": 2,
               "history_prefix_checks": 150, "class/late_start_market": 10,
-              "class/refused_parameter_request_then_normal_use": 15},
+              "class/refused_parameter_request_then_normal_use": 15, "class/config_run": 10},
     "thorough": {"chunks_probed_algebraically": 9000, "recursion_points": 1500000, "class/correlated_config": 1200,
                  "class/zero_volatility_market": 900, "class/change_point": 4500, "class/shock_change": 900,
                  "class/correlation_change": 900, "class/crossed_2_chunks": 1200, "statistical_runs": 40,
                  "history_prefix_checks": 4500, "class/late_start_market": 300,
-                 "class/refused_parameter_request_then_normal_use": 450},
+                 "class/refused_parameter_request_then_normal_use": 450, "class/config_run": 1200},
 }
 CASE_TIMEOUT_S = 300
 
@@ -72,7 +72,112 @@ def is_pd(n, ids, pairs, extra=None):
     return bool(np.all(np.linalg.eigvalsh(M) > 0.02))
 
 
+def gen_config_case(rng):
+    """the way from the configuration to the generator: several market types in any order, each giving, omitting
+    (default 0.0) or explicitly zeroing drift and volatility, groups of several markets, an index market."""
+    n_types = rng.choice([2, 3, 3, 4])
+    cfg = {"simulation": {"markets": [], "agents": ["Q"], "sessions": [
+        {"sessionName": 0, "iterationSteps": rng.choice([40, 120, 230]), "withOrderPlacement": True,
+         "withOrderExecution": True, "withPrint": False}]}}
+    expect = {}
+    for i in range(n_types):
+        name = "T%d" % i
+        e = {"class": "Market", "tickSize": rng.choice([1.0, 0.1]), "outstandingShares": 1000}
+        init = rng.choice([100.0, 300.0, 2500.0])
+        if rng.random() < 0.5:
+            e["marketPrice"] = init
+            if rng.random() < 0.3:
+                e["fundamentalPrice"] = init = init * rng.choice([1.0, 1.1])
+        else:
+            e["fundamentalPrice"] = init
+        drift = vol = 0.0
+        r = rng.random()
+        if r < 0.4:
+            vol = e["fundamentalVolatility"] = rng.choice([0.001, 0.01, 0.03])
+        elif r < 0.55:
+            e["fundamentalVolatility"] = 0.0
+        r = rng.random()
+        if r < 0.4:
+            drift = e["fundamentalDrift"] = rng.choice([0.001, -0.0005, 0.0002])
+        elif r < 0.55:
+            e["fundamentalDrift"] = 0.0
+        names = [name]
+        if rng.random() < 0.3:
+            k = rng.choice([2, 3])
+            e["numMarkets"] = k
+            names = ["%s-%d" % (name, j) for j in range(k)]
+        cfg[name] = e
+        cfg["simulation"]["markets"].append(name)
+        for n_ in names:
+            expect[n_] = {"initial": init, "drift": drift, "vol": vol}
+    order = list(cfg["simulation"]["markets"])
+    rng.shuffle(order)
+    cfg["simulation"]["markets"] = order
+    cfg["Q"] = {"class": "ScriptAgent", "numAgents": 1, "markets": list(order), "cashAmount": 1000, "assetVolume": 1,
+                "program": {"p_act": 0.0, "actions": []}}
+    return {"kind": "config", "config": cfg, "expect": expect, "seed": rng.randrange(1 << 30), "drive": "runner"}
+
+
+def run_config(case, res):
+    """zero-volatility markets (given, omitted or explicit 0.0) follow initial x exp(drift x t) exactly; volatile
+    ones move; every market starts at its configured initial value."""
+    from ..runnerdrive import run_runner_case
+
+    seen = {}
+
+    def sink(ev):
+        if ev["k"] == "times_ret":
+            for m in ev["sim"].markets if "sim" in ev else []:
+                seen.setdefault(m.name, []).append((m.get_time(), m.get_fundamental_price()))
+
+    out = run_runner_case(case, [sink])
+    if out.error is not None:
+        res.inconc("valid market configuration aborted: %r %s" % (out.error, (out.tb or "")[-400:]))
+        return
+    sim = out.simulator
+    res.count("class/config_run")
+    for m in sim.markets:
+        e = case["expect"].get(m.name)
+        if e is None:
+            continue
+        series = m.get_fundamental_prices(range(0, m.get_time() + 1))
+        res.count("config_markets_checked")
+        if series[0] != e["initial"]:
+            res.violation("initial", "first-fundamental-is-not-the-configured-initial-value",
+                          {"market": m.name, "value": series[0], "initial": e["initial"], "config": case["config"][m.name.split("-")[0]]})
+            return
+        if not all(isinstance(v, float) and math.isfinite(v) and v > 0 for v in series):
+            res.violation("positive", "fundamental-not-a-positive-finite-number", {"market": m.name})
+            return
+        if e["vol"] == 0.0:
+            res.count("class/config_zero_volatility_market" + ("" if "fundamentalVolatility" in case["config"][m.name.split("-")[0]] else "_by_default"))
+            for t, v in enumerate(series):
+                cf = e["initial"] * math.exp(e["drift"] * t)
+                if not close(v, cf, 1e-9):
+                    res.violation("zero-vol", "zero-volatility-path-is-not-initial-times-exp-drift-t",
+                                  {"market": m.name, "time": t, "value": v, "expected": cf,
+                                   "market_settings": case["config"][m.name.split("-")[0]],
+                                   "declaration_order": case["config"]["simulation"]["markets"]})
+                    return
+        else:
+            lr = [math.log(series[t + 1] / series[t]) for t in range(len(series) - 1)]
+            if len(set(lr)) <= 1:
+                res.violation("transform", "positive-volatility-market-generated-without-noise", {"market": m.name})
+                return
+            # scale of the log-returns: within a factor of the configured volatility (a coarse, safe bound: the
+            # exact statistics are judged by the direct cases)
+            sd = (sum((x - sum(lr) / len(lr)) ** 2 for x in lr) / max(1, len(lr) - 1)) ** 0.5
+            if len(lr) >= 39 and not (e["vol"] / 2.5 < sd < e["vol"] * 2.5):
+                res.violation("volatility", "log-return-deviation-differs-from-configured-volatility",
+                              {"market": m.name, "configured": e["vol"], "realised": sd, "n": len(lr),
+                               "declaration_order": case["config"]["simulation"]["markets"]})
+                return
+    res.seen(canon_hash([case["seed"], sorted(case["expect"].items())]), True)
+
+
 def gen_case(rng, tier, idx):
+    if idx % 10 == 6:
+        return gen_config_case(rng)
     if idx % 40 == 39:
         n = 3
         mk = [{"id": i, "initial": rng.choice([100.0, 3000.0]), "drift": rng.choice([0.0, 0.0005, -0.0003]),
@@ -139,7 +244,7 @@ def gen_case(rng, tier, idx):
         # a shock (or a parameter change) exactly one or two generation chunks after the last change point, i.e.
         # exactly on the horizon up to which values exist when it happens
         last = max([c["t"] for c in changes] + [0])
-        t = last + 100 * rng.choice([1, 1, 2])
+        t = last + 100 * rng.choice([1, 1, 2]) + rng.choice([0, 0, -1, -1, 1])
         m = rng.choice(mk)["id"]
         if t < T and t >= st.get(m, 0):
             changes.append({"t": t, "what": "shock", "m": m, "v": rng.choice([0.5, 0.7, 1.4])} if rng.random() < 0.7 else
@@ -543,7 +648,9 @@ def run_case(case, res):
 
     with np.errstate(all="raise"):
         try:
-            if case["kind"] == "stat":
+            if case["kind"] == "config":
+                run_config(case, res)
+            elif case["kind"] == "stat":
                 run_stat(case, res)
             else:
                 run_walk(case, res)
